@@ -419,3 +419,10 @@ def spectra_after_change(V, op):
     ops = dict(C4.COMMON_OPS)
     ops.update(C4.ACC_OPS)
     C4.run_op(V, 'AccSignal', op, ops[op], ['s_a', 's_v', 's_d'], prewarm=True)
+
+
+from pyvc.api import int_variant
+int_variant('C03', 'pseudo_response_spectra', ['acc'])
+int_variant('C03', 'true_response_spectra', ['acc'])
+int_variant('C03', 'energy-spectra', ['x'])
+int_variant('C03', 'AccSignal.gen_response_spectrum', ['x'])
